@@ -29,7 +29,8 @@ ASSUMPTIONS = ["refproto framing validated against all vendor example frames",
                "and the recorded frame in docs/design.md",
                "empty-collection messages that alias their request on the wire are outside the "
                "canonical domain"]
-REQUIRED_OBS = ["roundtrips", "size_checks", "classes_at4", "classes_at5", "image_roundtrips"]
+REQUIRED_OBS = ["roundtrips", "size_checks", "classes_at4", "classes_at5", "image_roundtrips",
+                "message_objects_reused_after_change"]
 BUDGET = {"quick": 100, "thorough": 1500}
 
 
@@ -89,6 +90,18 @@ def _check_wire(gen, name, msg, raw, size, sent_hdr, viol, default_addr):
     return f
 
 
+def _copy_into(a, b):
+    """Make dataclass instance `a` equal to `b` (same class) without replacing it or any
+    nested message object of the same class."""
+    import dataclasses
+    for f in dataclasses.fields(a):
+        va, vb = getattr(a, f.name), getattr(b, f.name)
+        if dataclasses.is_dataclass(va) and type(va) is type(vb) and not isinstance(va, type):
+            _copy_into(va, vb)
+        else:
+            setattr(a, f.name, vb)
+
+
 def _run_msgs(gen, items, custom_header, debug_log, rnd):
     """items: list of (class name, message).  One world, two real sockets."""
     viol = []
@@ -107,6 +120,13 @@ def _run_msgs(gen, items, custom_header, debug_log, rnd):
         ctx = [c for c in net.conns if c.host == "tx"][0]
         crx = [c for c in net.conns if c.host == "rx"][0]
         for name, msg in items:
+            if isinstance(msg, tuple) and msg[0] == "reuse":
+                # the application keeps one message object, changes it in place and sends it
+                # again (same object - and same sub-message object - other content)
+                _copy_into(msg[1], msg[2])
+                msg = msg[1]
+                obs["message_objects_reused_after_change"] = obs.get(
+                    "message_objects_reused_after_change", 0) + 1
             try:
                 size = reg.get_encoder(msg.message_id).size(msg)
             except Exception as e:
@@ -205,8 +225,20 @@ def run_case(case):
     rnd = random.Random(case["seed"])
     if k == "canon":
         items = []
-        for _ in range(case["rounds"]):
-            items += M.messages(gen, rnd)
+        import dataclasses
+        for r in range(case["rounds"]):
+            first = M.messages(gen, rnd)
+            if case["seed"] % 2 or r == 0:
+                items += first
+                continue
+            # every message is followed at once by the same object, changed in place to the
+            # content of another random message of its class
+            second = M.messages(gen, rnd)
+            for (na, a), (nb, b) in zip(first, second):
+                items.append((na, a))
+                if (na == nb and type(a) is type(b) and dataclasses.is_dataclass(a)
+                        and not getattr(type(a), "__dataclass_params__").frozen):
+                    items.append((na, ("reuse", a, b)))
         viol, obs, fps = _run_msgs(gen, items, case["custom_header"], case["debug_log"], rnd)
         obs[f"classes_at{gen}"] = len({n for n, _ in items})
         return {"violations": H.cap(viol), "evals": len(items), "decided": obs["roundtrips"],
